@@ -27,6 +27,120 @@ fn steer_4096(r: &mut Rng, out: &mut String, b: &str, nkeys: usize) {
     }
 }
 
+/// remove_smallest / remove_biggest with n EXACTLY the cardinality of the leading / trailing chunk(s): the emptied chunk
+/// must disappear (is_empty, min, max, == afterwards), also when everything goes
+fn steer_exact_trim(r: &mut Rng, out: &mut String, b: &str, nkeys: usize) {
+    let k = key(r, nkeys) as u64;
+    let base = k << 16;
+    let smallest = r.chance(1, 2);
+    // make chunk k the first (last) chunk, with a known population
+    if smallest {
+        writeln!(out, "remove_range {} un in:{}", b, base + 65535).unwrap();
+    } else {
+        writeln!(out, "remove_range {} in:{} un", b, base).unwrap();
+    }
+    let n = *r.pick(&[1u64, 2, 64, 4095, 4096, 4097, 5000]);
+    let s = base + *r.pick(&[0u64, 1, 1000, 60000]);
+    let n = n.min(base + 65536 - s);
+    writeln!(out, "insert_range {} in:{} in:{}", b, s, s + n - 1).unwrap();
+    // sometimes a second whole chunk goes with it
+    let mut total = n;
+    let k2 = if smallest { k.checked_sub(1) } else if k < 0xFFFF { Some(k + 1) } else { None };
+    if let (Some(k2), true) = (k2, r.chance(1, 3)) {
+        let m = *r.pick(&[1u64, 3, 4097]);
+        writeln!(out, "insert_range {} in:{} in:{}", b, (k2 << 16) + 5, (k2 << 16) + 5 + m - 1).unwrap();
+        total += m;
+    }
+    writeln!(out, "dump {}", b).unwrap();
+    let n_arg = match r.below(6) {
+        0 => total - 1,
+        1 => total + 1,
+        _ => total,
+    };
+    writeln!(out, "{} {} {}", if smallest { "remove_smallest" } else { "remove_biggest" }, b, n_arg).unwrap();
+    writeln!(out, "dump {}", b).unwrap();
+    writeln!(out, "is_empty {}", b).unwrap();
+    writeln!(out, "min {}", b).unwrap();
+    writeln!(out, "max {}", b).unwrap();
+    writeln!(out, "len {}", b).unwrap();
+    writeln!(out, "clone b8 {}", b).unwrap();
+    writeln!(out, "eq b8 {}", b).unwrap();
+}
+
+/// remove_smallest / remove_biggest on a bitset chunk that stays a bitset, where the removal ends exactly on (or next to) a
+/// 64-bit word boundary (the cached cardinality must follow)
+fn steer_word_trim(r: &mut Rng, out: &mut String, b: &str, nkeys: usize) {
+    let k = key(r, nkeys) as u64;
+    let base = k << 16;
+    let smallest = r.chance(1, 2);
+    if smallest {
+        writeln!(out, "remove_range {} un in:{}", b, base + 65535).unwrap();
+    } else {
+        writeln!(out, "remove_range {} in:{} un", b, base).unwrap();
+    }
+    let w0 = r.below(200) * 64;
+    let n = r.range(9000, 12000) / 64 * 64 + *r.pick(&[0u64, 0, 1, 63]);
+    writeln!(out, "insert_range {} in:{} in:{}", b, base + w0, base + w0 + n - 1).unwrap();
+    let cut = r.range(1, 60) * 64 + *r.pick(&[0u64, 0, 0, 1, 63]);
+    writeln!(out, "{} {} {}", if smallest { "remove_smallest" } else { "remove_biggest" }, b, cut).unwrap();
+    writeln!(out, "dump {}", b).unwrap();
+    writeln!(out, "len {}", b).unwrap();
+    writeln!(out, "clone b8 {}", b).unwrap();
+    writeln!(out, "eq b8 {}", b).unwrap();
+}
+
+/// a range query across a HOLE: chunks k and k+1 populated up to the chunk edge, chunk k+2 absent, chunk k+3 populated
+/// from its first value (a lookup by position instead of by key finds the wrong chunk)
+fn steer_hole(r: &mut Rng, out: &mut String, b: &str) {
+    let k = *r.pick(&[0u64, 1, 5, 0xFFF0]);
+    let base = k << 16;
+    writeln!(out, "remove_range {} in:{} in:{}", b, base, base + 4 * 65536 + 65535).unwrap();
+    let a = base + *r.pick(&[0u64, 100, 32768, 65000]);
+    writeln!(out, "insert_range {} in:{} in:{}", b, a, base + 65535).unwrap();
+    if r.chance(3, 4) {
+        writeln!(out, "insert_range {} in:{} in:{}", b, base + 65536, base + 2 * 65536 - 1).unwrap();
+    }
+    let gap = r.range(1, 2); // absent chunks
+    let far = base + (2 + gap) * 65536;
+    let m = *r.pick(&[1u64, 0x100, 5000]);
+    writeln!(out, "insert_range {} in:{} in:{}", b, far, far + m - 1).unwrap();
+    writeln!(out, "dump {}", b).unwrap();
+    for _ in 0..3 {
+        let lo = a + r.below(3);
+        let hi = match r.below(4) {
+            0 => far,
+            1 => far + m - 1,
+            2 => far + m / 2,
+            _ => far - 1 - r.below(65536),
+        };
+        writeln!(out, "contains_range {} in:{} in:{}", b, lo, hi).unwrap();
+        writeln!(out, "range_cardinality {} in:{} in:{}", b, lo, hi).unwrap();
+    }
+}
+
+/// a bitset chunk whose TOPMOST 64-bit word is completely set shrinks to <= 4096 values (bitset -> array conversion with
+/// the word 65472..=65535 full)
+fn steer_top_word(r: &mut Rng, out: &mut String, b: &str, nkeys: usize) {
+    let base = (key(r, nkeys) as u64) << 16;
+    let lo = base + 65536 - *r.pick(&[64u64, 128, 1000, 4000]);
+    writeln!(out, "remove_range {} in:{} in:{}", b, base, base + 65535).unwrap();
+    writeln!(out, "insert_range {} in:{} in:{}", b, lo, base + 65535).unwrap();
+    let x = r.range(4097, 6000);
+    writeln!(out, "insert_range {} in:{} in:{}", b, base + 10, base + 10 + x - 1).unwrap();
+    writeln!(out, "dump {}", b).unwrap();
+    match r.below(3) {
+        0 => writeln!(out, "remove_range {} in:{} in:{}", b, base + 10, base + 10 + x - 100).unwrap(),
+        1 => writeln!(out, "remove_smallest {} {}", b, x - r.below(50)).unwrap(),
+        _ => {
+            writeln!(out, "remove_range {} in:{} in:{}", b, base + 10, base + 10 + x - 4096 + (base + 65536 - lo)).unwrap();
+            writeln!(out, "remove {} {}", b, base + 10 + x - 1).unwrap();
+        }
+    }
+    writeln!(out, "dump {}", b).unwrap();
+    writeln!(out, "len {}", b).unwrap();
+    writeln!(out, "max {}", b).unwrap();
+}
+
 pub fn queries(r: &mut Rng, out: &mut String, b: &str, nkeys: usize) {
     writeln!(out, "len {}", b).unwrap();
     writeln!(out, "is_empty {}", b).unwrap();
@@ -75,7 +189,16 @@ pub fn queries(r: &mut Rng, out: &mut String, b: &str, nkeys: usize) {
 /// one random C01 mutator on slot `b0` (no `dump`); shared with the operand builders of other profiles
 pub fn mutator(r: &mut Rng, out: &mut String, nkeys: usize) {
     {
-        match r.below(27) {
+        match r.below(30) {
+            27 => {
+                if r.chance(1, 2) {
+                    steer_exact_trim(r, out, "b0", nkeys)
+                } else {
+                    steer_word_trim(r, out, "b0", nkeys)
+                }
+            }
+            28 => steer_hole(r, out, "b0"),
+            29 => steer_top_word(r, out, "b0", nkeys),
             24..=26 => {
                 // a sparse chunk (no two adjacent values) big enough to be a bitset, or just below the limit
                 let base = (key(r, nkeys) as u64) << 16;
